@@ -111,39 +111,52 @@ class Squid:
         if r.returncode:
             raise RuntimeError("squid -z failed: " + r.stdout.decode("latin1")[-800:] + self.tail_log())
 
-    def start(self, init=True, timeout=40, extra_args=()):
+    def start(self, init=True, timeout=90, extra_args=(), tries=4):
+        """start and wait (log based) until squid accepts connections on ITS port. If another process took the
+        probed port in the meantime (squid: 'Unable to open HTTP Socket' / 'Address already in use') a new port is
+        chosen and the start repeated: a harness retry, not an event (DESIGN 4.3)."""
         if init and self.cache_dirs and not getattr(self, "_inited", False):
             self.init_dirs()
             self._inited = True
+        last = ""
+        for attempt in range(tries):
+            try:
+                before = self.log_text().count("Accepting HTTP Socket connections at")
+                self._start_once(timeout, extra_args, before)
+                return self
+            except RuntimeError as e:
+                last = str(e)
+                log = self.log_text()
+                self.stop(kill=True)
+                lost = any(x in log[-6000:] + last for x in ("Unable to open HTTP Socket", "Address already in use", "Cannot open HTTP Port", "No such file or directory", "Permission denied", "did not open its port"))
+                if not lost or "Bungled" in last:
+                    raise
+                # new port, rewrite conf
+                old = self.port
+                self.port = free_port()
+                conf = open(self.conf_path).read().replace(f"127.0.0.1:{old}", f"127.0.0.1:{self.port}")
+                open(self.conf_path, "w").write(conf)
+                self.start_retries = getattr(self, "start_retries", 0) + 1
+                time.sleep(0.5 + attempt)
+        raise RuntimeError(f"squid could not be started after {tries} attempts: {last}")
+
+    def _start_once(self, timeout, extra_args, before):
         args = (["--foreground"] if self.smp else ["-N"]) + list(extra_args)
         self.out = open(f"{self.work}/stdout.txt", "ab")
         self.proc = subprocess.Popen(self._cmd(*args), env=self._env(), stdout=self.out, stderr=subprocess.STDOUT,
                                      start_new_session=True, cwd=self.work)
+        want = before + (self.smp if self.smp else 1)
         t0 = time.time()
         while time.time() - t0 < timeout:
             if self.proc.poll() is not None:
                 raise RuntimeError(f"squid exited rc={self.proc.returncode} during start: " + self.tail_log())
-            try:
-                s = socket.create_connection(("127.0.0.1", self.port), timeout=0.5)
-                s.close()
+            if self.log_text().count("Accepting HTTP Socket connections at") >= want:
                 break
-            except OSError:
-                time.sleep(0.05)
+            time.sleep(0.05)
         else:
-            self.stop(kill=True)
             raise RuntimeError("squid did not open its port: " + self.tail_log())
         if self.smp:
-            # wait until all kids registered (log line per kid) -- bounded
-            t1 = time.time()
-            while time.time() - t1 < 15:
-                try:
-                    if open(self.cache_log, "rb").read().count(b"Accepting HTTP Socket connections") >= self.smp:
-                        break
-                except OSError:
-                    pass
-                time.sleep(0.1)
             time.sleep(0.5)
-        return self
 
     def alive(self):
         return self.proc is not None and self.proc.poll() is None
